@@ -12,6 +12,7 @@ PYCTR_ERRS = {
     'RomFSFileNotFoundError': 40, 'RomFSIsADirectoryError': 41, 'RomFSEntryError': 42,
     'InvalidRomFSHeaderError': 43, 'InvalidIVFCError': 44,
     'InvalidCCIError': 50, 'InvalidHeaderError': 70, 'InvalidHeaderLengthError': 71, 'NCCHSeedError': 60, 'InvalidNCCHError': 61,
+    'InvalidNANDError': 80, 'MissingOTPError': 81,
 }
 
 MODULES = {
